@@ -11,6 +11,7 @@ import BumpVerif.Gen.FnSlow
 import BumpVerif.Gen.FnIter
 import BumpVerif.Gen.FnRawVec
 import BumpVerif.Gen.FnRewind
+import BumpVerif.Gen.FnGlue
 import BumpVerif.Gen.FnVec
 import BumpVerif.Gen.FnVecDrain
 import BumpVerif.Gen.FnVecIntoIter
@@ -126,6 +127,24 @@ def main : IO Unit := do
   out := add (firstDiff "grow" ((blocks.flatMap fun (s, p, n) => rl.filterMap fun (oal, nal, nsz) => if n ≤ nsz then some (s, p, n, oal, nsz, nal) else none).map
     fun (s, p, n, oal, nsz, nal) => (s!"{tag s} ptr={p} old={n}@{oal} new={nsz}@{nal}",
       showSO (Gen.Fn.grow E s.a.M p ⟨n, oal⟩ ⟨nsz, nal⟩ s), showSO (grow E p n oal nsz nal s)))) out
+  -- the Alloc / Allocator impls over the kernel
+  let showP := fun (r : St × Outcome (Nat × Nat)) => match r.2 with | .bad _ => "bad" | o => s!"{showO o} chunks={repr r.1.a.chunks} evs={repr r.1.evs} mem={repr r.1.mem}"
+  let mapP := fun (n : Nat) (r : St × Outcome Nat) => (match r with | (s, .ok q) => (s, Outcome.ok (q, n)) | (s, .err) => (s, .err) | (s, .panic) => (s, .panic) | (s, .bad w) => (s, .bad w) | (s, .envBad) => (s, .envBad) : St × Outcome (Nat × Nat))
+  out := add (firstDiff "alloc_layout" ((sts.flatMap fun s => lays.map fun l => (s, l)).map fun (s, (sz, al)) =>
+    (s!"{tag s} size={sz} align={al}", showSO (Gen.Fn.alloc_layout E s.a.M ⟨sz, al⟩ s), showSO (allocLayout E sz al s)))) out
+  out := add (firstDiff "Allocator::allocate" ((sts.flatMap fun s => lays.map fun l => (s, l)).map fun (s, (sz, al)) =>
+    (s!"{tag s} size={sz} align={al}", showP (Gen.Fn.allocator_allocate E s.a.M ⟨sz, al⟩ s), showP (mapP sz (tryAllocLayout E sz al s))))) out
+  out := add (firstDiff "Alloc::realloc" ((blocks.flatMap fun (s, p, n) => [1, 8, 16].flatMap fun al => [0, 1, n / 2, n, n + 8, 2 * n + 100, 5000].map fun nsz => (s, p, n, al, nsz)).map
+    fun (s, p, n, al, nsz) => (s!"{tag s} ptr={p} old={n}@{al} new_size={nsz}",
+      showSO (Gen.Fn.alloc_realloc E s.a.M p ⟨n, al⟩ nsz s),
+      showSO (if n = 0 then tryAllocLayout E n al s else if validLayout nsz al then (if nsz ≤ n then shrink E p n al nsz al s else grow E p n al nsz al s) else (s, .err))))) out
+  out := add (firstDiff "Allocator::shrink" ((blocks.flatMap fun (s, p, n) => rl.filterMap fun (oal, nal, nsz) => if nsz ≤ n then some (s, p, n, oal, nsz, nal) else none).map
+    fun (s, p, n, oal, nsz, nal) => (s!"{tag s} ptr={p} old={n}@{oal} new={nsz}@{nal}",
+      showP (Gen.Fn.allocator_shrink E s.a.M p ⟨n, oal⟩ ⟨nsz, nal⟩ s), showP (mapP nsz (shrink E p n oal nsz nal s))))) out
+  out := add (firstDiff "Allocator::grow_zeroed" ((blocks.flatMap fun (s, p, n) => rl.filterMap fun (oal, nal, nsz) => if n ≤ nsz then some (s, p, n, oal, nsz, nal) else none).map
+    fun (s, p, n, oal, nsz, nal) => (s!"{tag s} ptr={p} old={n}@{oal} new={nsz}@{nal}",
+      showP (Gen.Fn.allocator_grow_zeroed E s.a.M p ⟨n, oal⟩ ⟨nsz, nal⟩ s),
+      showP (mapP nsz (bindO (grow E p n oal nsz nal s) fun s q => ({ s with mem := s.mem ++ [.zero (q + n) (nsz - n)] }, .ok q)))))) out
   -- the failed-initializer rewind
   out := add (firstDiff "alloc_try_with_rewind" ((blocks.flatMap fun (s, p, _) => [(s, p, s.a.cur E, (s.a.cur E).footer), (s, p, emptyChunk E, E)]).map
     fun (s, p, rf, rp) => (s!"{tag s} slot={p} rewind_footer={rf.footer} rewind_ptr={rp}",
